@@ -16,6 +16,8 @@ CHECKS = {
                 note="Trusted: lxml, the independent reader (mc/models/tableread.py)."),
     "C07": dict(tech=MC, ref="5/C07", text="Same exploration; after each step an independent lxml walk checks the structural rules (repeat attributes, child kinds, order, widths, sums); name rules are enumerated exhaustively over short strings.",
                 note="Trusted: lxml; the structural rules as written in the property."),
+    "C08": dict(tech=ENUM, ref="5/C08", text="Every table state inside the bound (all seed encodings and their one-op successors) x every getter with every coordinate form (in, edge, beyond; tuple/string) x every returned object x every mutation of it: coordinates stamped, repeat cleared on expanding reads, beyond-the-edge reads empty and non-growing, table/maps/cached wrappers and sibling objects unchanged by the mutation, push-back equals the grid model.",
+                note="Trusted: lxml; the set of getters documented as returning copies (listed in evidence assumptions)."),
 }
 
 NOT_YET = {}
